@@ -781,6 +781,7 @@ struct MyKeeper {
     void start() {
         th = std::thread([this] {
             while (!stop.load(std::memory_order_relaxed)) {
+                suspend_gate();   // let the process go quiet while the watchdog decides whether it is stuck
                 tbb::task_arena* a = cur.load(std::memory_order_acquire);
                 if (a && enq.load(std::memory_order_relaxed) - ran.load(std::memory_order_relaxed) < 256)
                     for (int i = 0; i < 4; i++) { enq.fetch_add(1, std::memory_order_relaxed); a->enqueue([this] { spin_iters(300); ran.fetch_add(1, std::memory_order_release); }); }
@@ -807,7 +808,7 @@ struct Drivers {                 // driver 0 is the main thread; drivers 1.. are
             uint64_t seen = 0;
             for (;;) {
                 Batch* bb;
-                { std::unique_lock<std::mutex> l(m); while (!quit && gen == seen) cv_start.wait_for(l, std::chrono::milliseconds(50)); if (quit) return; seen = gen; bb = b; }
+                { std::unique_lock<std::mutex> l(m); while (!quit && gen == seen) cv_start.wait(l); if (quit) return; seen = gen; bb = b; }
                 if (i + 1 < bb->active) run_batch(*bb, i + 1);
                 { std::lock_guard<std::mutex> l(m); if (--running == 0) cv_done.notify_all(); }
             }
@@ -817,7 +818,7 @@ struct Drivers {                 // driver 0 is the main thread; drivers 1.. are
         { std::lock_guard<std::mutex> l(m); b = &bb; running = (int)th.size(); gen++; }
         cv_start.notify_all();
         run_batch(bb, 0);
-        std::unique_lock<std::mutex> l(m); while (running) cv_done.wait_for(l, std::chrono::milliseconds(50));
+        std::unique_lock<std::mutex> l(m); while (running) cv_done.wait(l);
     }
     void finish() { { std::lock_guard<std::mutex> l(m); quit = true; } cv_start.notify_all(); for (auto& t : th) t.join(); }
 };
@@ -838,23 +839,18 @@ int main(int argc, char** argv) {
     tbb::global_control gc(tbb::global_control::max_allowed_parallelism, 16);
     g_pool = new PartPool();
 
-    // No thread may exit while the watchdog runs (vrt's spin-stall test misreads an exited thread as one that burnt
-    // CPU for ever), so the keeper and the drivers are created once; arenas are kept alive as well.
+    // The keeper and the drivers are created once and parked between batches (no thread churn while the watchdog samples
+    // the process); arenas are kept alive as well.
     MyKeeper keeper; keeper.start();
     Drivers drv; drv.start(maxdrivers - 1);
     WatchdogCfg wc;
-    std::function<void(const HangInfo&)> on_hang = [&](const HangInfo& hi) {
+    watchdog_start(wc, [&](const HangInfo& hi) {
         std::string d = "a parallel loop did not return: no progress for " + std::to_string(hi.stalled_for) + "s; threads: " + hi.threads + "\n" + rings_dump();
-        if (hi.spin_stall && hi.stalled_for < wc.spin_cpu_s) {      // cannot be genuine: nobody can have burnt spin_cpu_s of CPU yet
-            fprintf(stderr, "[c05] watchdog: ignoring a spin-stall verdict after %.1fs\n", hi.stalled_for); R.stat("watchdog_premature_spin_verdicts"); progress();
-            watchdog_start(wc, on_hang); return;
-        }
         if (!hi.quiescent && !hi.spin_stall) { R.inconclusive++; fprintf(stderr, "[c05] watchdog: inconclusive stall\n%s\n", d.c_str()); R.finish_and_exit(4); }
         // bodies never block, so a loop that has not returned while nobody can run any more (or everybody spins) lost work
         R.violation(hi.quiescent ? "c05.hang.quiescent" : "c05.hang.spin-stall", d, "{}");
         R.finish_and_exit(3);
-    };
-    watchdog_start(wc, on_hang);
+    });
 
     long done = 0;
     while (done < cases) {
